@@ -334,4 +334,61 @@ func TestVerif_C20_Parser(t *testing.T) {
 		}
 	}
 	run.Sample(map[string]any{"kind": "generated parser inputs", "examples": []string{gen(), gen(), gen(), gen(), gen(), gen()}})
+
+	// The JSON entry point (every sequence a replication peer sends): the input is either a JSON string
+	// literal whose content is a token, or a bare token. Quotes that do not form one JSON string are malformed.
+	quote := func(t string) string {
+		switch rnd.Intn(9) {
+		case 0:
+			return `"` + t + `"`
+		case 1:
+			return `"` + t
+		case 2:
+			return t + `"`
+		case 3:
+			return `""` + t + `""`
+		case 4:
+			return `"` + t + `""`
+		case 5:
+			return `"`
+		case 6:
+			return `""`
+		case 7:
+			return `"\"` + t + `\""`
+		}
+		return t
+	}
+	for i := 0; i < total/4; i++ {
+		in := quote(gen())
+		run.Eval()
+		var inner string
+		isJSONString := json.Unmarshal([]byte(in), &inner) == nil
+		if !isJSONString {
+			inner = in
+		}
+		want, ok := model(inner)
+		got, err := ParseJSONSequenceID(in)
+		class := "json-string"
+		if !isJSONString {
+			class = "bare"
+			if strings.Contains(in, `"`) {
+				class = "unbalanced-or-stray-quotes"
+			}
+		}
+		switch {
+		case err != nil && ok:
+			run.Violation("parser-json", "C20|json-parser|well-formed-token-rejected|"+class, fmt.Sprintf("%q rejected: %v", in, err), map[string]any{"input": in})
+		case err == nil && !ok:
+			run.Violation("parser-json", "C20|json-parser|malformed-token-accepted|"+class, fmt.Sprintf("%q parsed as %+v", in, got), map[string]any{"input": in, "parsed": got})
+		case err == nil && got != want:
+			run.Violation("parser-json", "C20|json-parser|mis-parsed|"+class, fmt.Sprintf("%q parsed as %+v, denotes %+v", in, got, want), map[string]any{"input": in})
+		case err != nil:
+			if st, _ := base.ErrorAsHTTPStatus(err); st < 400 || st > 499 {
+				run.Violation("parser-json", "C20|json-parser|malformed-token-not-a-client-error|"+class, fmt.Sprintf("%q rejected with %q -> HTTP %d", in, err, st), map[string]any{"input": in})
+			}
+		}
+		run.Count("json_entry_point_inputs", 1)
+		run.Distinct("json_input_classes", class)
+		run.Nontrivial("json:" + in)
+	}
 }
